@@ -398,9 +398,21 @@ pub fn run_deliver(cfg: &SutCfg, trace: &[Timed]) -> Result<Vec<PktOut>, String>
 /// Only meaningful without cfg huginn_net_verif_sched (the loop's channel is std's mpsc there).
 #[cfg(not(huginn_net_verif_sched))]
 pub fn run_loop(cfg: &SutCfg, trace: &[Timed]) -> Result<Vec<PktOut>, String> {
+    run_loop_breaks(cfg, trace, &[])
+}
+
+/// As `run_loop`, but the packet source ends before each frame index in `breaks` and the same
+/// analyzer instance is started again on the rest (fault: the capture source ends and restarts).
+#[cfg(not(huginn_net_verif_sched))]
+pub fn run_loop_breaks(cfg: &SutCfg, trace: &[Timed], breaks: &[usize]) -> Result<Vec<PktOut>, String> {
     use std::cell::RefCell;
     use std::sync::mpsc;
     let n = trace.len();
+    let mut ends: Vec<usize> = breaks.iter().cloned().filter(|b| *b > 0 && *b < n).collect();
+    ends.sort();
+    ends.dedup();
+    ends.push(n);
+    let stop_at = RefCell::new(n);
     let outs: RefCell<Vec<PktOut>> = RefCell::new(vec![PktOut::default(); n]);
     let idx = RefCell::new(0usize); // number of frames handed over so far
 
@@ -417,7 +429,7 @@ pub fn run_loop(cfg: &SutCfg, trace: &[Timed]) -> Result<Vec<PktOut>, String> {
                         o[i - 1].obs.append(&mut obs);
                     }
                 }
-                if i >= n {
+                if i >= *stop_at.borrow() {
                     return None;
                 }
                 clock::advance_to_ns(trace[i].t);
@@ -428,12 +440,15 @@ pub fn run_loop(cfg: &SutCfg, trace: &[Timed]) -> Result<Vec<PktOut>, String> {
         }};
     }
 
-    let s = Sut::new(cfg)?;
-    match s {
-        Sut::Unified(mut a, _) => drive!(a, huginn_net::error::HuginnNetError, |r: &huginn_net::output::FingerprintResult| obs_uni(r)),
-        Sut::Tcp(mut a, _) => drive!(a, huginn_net_tcp::HuginnNetTcpError, |r: &huginn_net_tcp::TcpAnalysisResult| obs_tcp(r)),
-        Sut::Http(mut a) => drive!(a, huginn_net_http::HuginnNetHttpError, |r: &huginn_net_http::HttpAnalysisResult| obs_http(r)),
-        Sut::Tls(mut a) => drive!(a, huginn_net_tls::HuginnNetTlsError, |r: &huginn_net_tls::TlsClientOutput| vec![obs_tls(r)]),
+    let mut s = Sut::new(cfg)?;
+    for end in ends {
+        *stop_at.borrow_mut() = end;
+        match &mut s {
+            Sut::Unified(a, _) => drive!(a, huginn_net::error::HuginnNetError, |r: &huginn_net::output::FingerprintResult| obs_uni(r)),
+            Sut::Tcp(a, _) => drive!(a, huginn_net_tcp::HuginnNetTcpError, |r: &huginn_net_tcp::TcpAnalysisResult| obs_tcp(r)),
+            Sut::Http(a) => drive!(a, huginn_net_http::HuginnNetHttpError, |r: &huginn_net_http::HttpAnalysisResult| obs_http(r)),
+            Sut::Tls(a) => drive!(a, huginn_net_tls::HuginnNetTlsError, |r: &huginn_net_tls::TlsClientOutput| vec![obs_tls(r)]),
+        }
     }
     Ok(outs.into_inner())
 }
